@@ -25,11 +25,36 @@ def check_C13(run):
             if k not in kinds and len(samples) < 6 and r["outcome"] != "ok":
                 samples.append({"family": "directive", "cli": r["cli"], "conv": r["conv"], "meth": r["meth"], "outcome": r["outcome"], "diag": r.get("diag", r.get("why"))})
             kinds.add(k)
+    # (iii) corners of the type grammar as whole programs through the CLI, each under a deadline in its own process
+    import os
+    from vlib import Infra
+    cli = run.build_cli()
+    pscen = os.path.join(run.scratch, "pscen.ndjson")
+    if run.replay:
+        pscen = os.path.join(run.replay, "scen-run.ndjson")
+    if not run.replay or os.path.exists(pscen):
+        if not run.replay:
+            out = run.tlc("Export_Shapes", "INIT Init\nNEXT Next\nCONSTANTS\n  ScenOut = \"%s\"\nCHECK_DEADLOCK FALSE\n" % pscen, workers=1, timeout=1200, role="export")
+            if "exported" not in out:
+                raise Infra("export failed:\n" + out[-3000:])
+        pobs = os.path.join(run.scratch, "pobs.ndjson")
+        run.harness(["run", "-scen", pscen, "-obs", pobs, "-work", os.path.join(run.scratch, "wp"), "-bin", cli], timeout=7200)
+        run.fam = "run"
+        run.scen_files["run"] = pscen
+        run.validate_obs("Obs_Run", pobs, chunk=10 ** 9)
+        for r in read_ndjson(pobs):
+            ev += 1
+            k = ("program", r["name"], r["exit"], r["panic"], r["timeout"])
+            if k not in kinds and len(samples) < 8 and r["name"].startswith(("self-slice", "seen-two", "generic-rec")):
+                samples.append({"family": "program", "name": r["name"], "exit": r["exit"], "panic": r["panic"], "timeout": r["timeout"], "diag": r.get("diag")})
+            kinds.add(k)
     run.samples = samples
-    run.assumptions = ["in-process generation per converter under recover(); a hang or an unrecoverable crash of the harness process is reported as an infrastructure error (exit 2) and has to be looked at by hand",
+    run.assumptions = ["(i) and (ii) run in-process per converter under recover(): a hang or an unrecoverable crash there is an infrastructure error (exit 2); (iii) runs the CLI per program in its own process under a deadline, so hangs and stack overflows are observed as such",
                        "the diagnostic 'names the offending declaration' when it contains the file:line of the converter or method, the converter's name, or 'command line' for -g settings"]
     return run.finish("(i) every single-method program over the pairs of the leaves goverter cannot convert by itself (uintptr, unsafe.Pointer, error, any, interface with method, func, chan, named pointer/slice/map/array) under 7 constructors; "
-                      "(ii) every (level, key, value text) directive triple of 38 keys x 16 value texts x 3 levels plus all placement scenarios of the settings family; distinct = distinct (family, shape or keys, outcome)",
+                      "(ii) every (level, key, value text) directive triple of 38 keys x 16 value texts x 3 levels plus all placement scenarios of the settings family; "
+                      "(iii) 417 whole programs produced by TLC as source text (self-referential and mutually recursive named types through 11 constructors x 4 uses x 4 settings, the seen rule, generic types) through the CLI, each in its own process under a 60 s deadline; "
+                      "distinct = distinct (family, shape or keys or program, outcome)",
                       ev, len(kinds))
 
 
